@@ -249,7 +249,7 @@ func Template(t *rapid.T) Case {
 		}
 		return fmt.Sprintf(where, s)
 	}
-	switch rapid.SampledFrom([]string{"typedef-cycle", "uses-cycle", "identity-cycle", "include-cycle", "import-cycle", "cross-module-typedef-cycle", "cross-module-uses-cycle", "absent", "lone-submodule", "bad-augment", "bad-deviation", "duplicates", "numbers", "leafref-union-cycle", "choice-case-oddities", "fan-in", "header-mix", "long-chain", "enum-unions", "prefix-run", "error-budget", "bits-sharing-a-position"}).Draw(t, "template") {
+	switch rapid.SampledFrom([]string{"typedef-cycle", "uses-cycle", "identity-cycle", "include-cycle", "import-cycle", "cross-module-typedef-cycle", "cross-module-uses-cycle", "absent", "lone-submodule", "bad-augment", "bad-deviation", "duplicates", "numbers", "leafref-union-cycle", "choice-case-oddities", "fan-in", "header-mix", "long-chain", "enum-unions", "prefix-run", "error-budget", "bits-sharing-a-position", "comment-sequences"}).Draw(t, "template") {
 	case "typedef-cycle":
 		var b strings.Builder
 		for i := 0; i < n; i++ {
@@ -427,6 +427,31 @@ func Template(t *rapid.T) Case {
 		}
 		b.WriteString("bit auto; ")
 		c.Files = append(c.Files, mod("m", fmt.Sprintf("typedef flags { type bits { %s} } leaf f { type flags; } leaf g { type bits { %s} } leaf u { type union { type flags; type bits { bit x { position 3; } bit y { position 3; } } } }", b.String(), b.String())))
+	case "comment-sequences":
+		// the comment openers and the comment closer where no comment is: inside and at the end of unquoted
+		// words, after a comment that was already closed, behind the last statement, in a row
+		piece := func(label string) string {
+			return rapid.SampledFrom([]string{"*/", "/*", "//", "*/*/", "/*/", "*//*", "a*/b", "[a-z]*/[0-9]+", "x/*y", "x//y", "/* a /* b */ c */", "/**/*/", "*/ leaf z { type string; }"}).Draw(t, label)
+		}
+		var b strings.Builder
+		b.WriteString("leaf before { type string; } ")
+		for i, n := 0, rapid.IntRange(1, 3).Draw(t, "comment-pieces"); i < n; i++ {
+			switch rapid.IntRange(0, 3).Draw(t, "comment-piece-place") {
+			case 0:
+				fmt.Fprintf(&b, "leaf p%d { type string { pattern %s; } } ", i, piece("piece"))
+			case 1:
+				fmt.Fprintf(&b, "description %s; ", piece("piece"))
+			case 2:
+				fmt.Fprintf(&b, "%s ", piece("piece"))
+			default:
+				fmt.Fprintf(&b, "leaf q%d%s { type string; } ", i, piece("piece"))
+			}
+		}
+		text := mod("m", b.String())
+		if rapid.Bool().Draw(t, "piece-after-the-module") {
+			text.Text += " " + piece("trailing-piece")
+		}
+		c.Files = append(c.Files, text)
 	case "error-budget":
 		// a text with exactly n lexical faults (invalid escapes), n around the number of errors the reader is
 		// willing to collect and the size of its token queue: in one string, or one per statement, with sound
